@@ -825,9 +825,6 @@ func lemmaRangesetSub2(a0, b0, a1, b1, start, end, v int64) (wf0, okWF, okMem bo
 //@ func (*Stream).appendInFramesLocked(s, w, pnum, pto) (r)
 //@   trusted
 //@   havocs except Stream.id, Conn.side
-//@ func (*Stream).appendOutFramesLocked(s, w, pnum, pto) (r)
-//@   trusted
-//@   havocs except Stream.id, Conn.side
 //@ func (*Stream).inUnlockNoQueue(s) (r)
 //@   trusted
 //@   havocs except Stream.id, Conn.side
@@ -865,3 +862,19 @@ func tpInRange(p transportParameters) bool {
 //@   loop 1 invariant tpInRange(p)
 //@   allocates
 //@   abstract
+
+// ---------------------------------------------------------------------------
+// Stream data selection (property C20): dataToSend picks the first unsent range, or on PTO the
+// unacknowledged prefix. (A contract for appendOutFramesLocked itself -- what it offers to the
+// packet writer fits in the connection window -- was attempted and is not within reach yet: it
+// needs the stream's invariants over rangeset and pipe; see DESIGN.md.)
+//
+//@ func dataToSend(start, end, outunsent, outacked, pto) (sendStart, size)
+//@   ensures  pto ==> sendStart == start
+//@   ensures  !pto && len(outunsent) > 0 ==> sendStart == outunsent[0].start && size == outunsent[0].end - outunsent[0].start
+//@   ensures  !pto && len(outunsent) == 0 ==> sendStart == end && size == 0
+//@   ensures  pto && 0 <= start && start <= end ==> size >= 0
+//@   loop 1 invariant -1 <= rangeindex && rangeindex < len(outacked)
+//@ func (*Stream).appendOutFramesLocked(s, w, pnum, pto) (r)
+//@   trusted
+//@   havocs except Stream.id, Conn.side
